@@ -17,8 +17,13 @@ TranslateError (the check then fails, it never guesses):
     isinstance(p|q, F|Fd)            and   space_p|space_q ==|!= "o"|"v"|"g"
   and whose leaves are
     return S.Zero
+    [<name> = Indices().get_generic_indices(virt=1)[("virt", "")][0]   |
+     <name> = Indices().get_generic_indices(occ=1)[("occ", "")][0]]*
     return <product of KroneckerDelta(x, y)>,  x, y in
-           p_idx | q_idx | Index(<str>, above_fermi=True | below_fermi=True)
+           p_idx | q_idx | <name bound in this leaf>
+  (a new, uniquely named registry index of the virtual / occupied space).
+  The former raw `Index('a', above_fermi=True)` is no longer accepted: it
+  prints like every other index named 'a' (C18) - a return to it is reported.
 
 Assumption stated in the evidence: F and Fd are the only FermionicOperator
 classes, so `isinstance(x, F)` is the negation of `isinstance(x, Fd)`.
@@ -114,48 +119,74 @@ def _bexpr(node):
     _fail(node, "unsupported test")
 
 
-def _darg(node):
+FRESH = {"virt": "(AFresh Virt)", "occ": "(AFresh Occ)"}
+
+
+def _fresh_binding(st):
+    """`name = Indices().get_generic_indices(<sp>=1)[("<sp>", "")][0]`
+    -> (name, darg) or None"""
+    if not (isinstance(st, ast.Assign) and len(st.targets) == 1
+            and isinstance(st.targets[0], ast.Name)):
+        return None
+    name = st.targets[0].id
+    if name in ("p", "q", "p_idx", "q_idx", "space_p", "space_q"):
+        return None
+    for sp, darg in FRESH.items():
+        if ast.unparse(st.value) in (
+                f"Indices().get_generic_indices({sp}=1)['{sp}', ''][0]",
+                f"Indices().get_generic_indices({sp}=1)[('{sp}', '')][0]"):
+            return name, darg
+    return None
+
+
+def _darg(node, local):
     if _is_name(node, "p_idx"):
         return "AP"
     if _is_name(node, "q_idx"):
         return "AQ"
-    if isinstance(node, ast.Call) and _is_name(node.func, "Index") \
-            and len(node.args) == 1 and isinstance(node.args[0], ast.Constant) \
-            and isinstance(node.args[0].value, str) \
-            and len(node.keywords) == 1 \
-            and isinstance(node.keywords[0].value, ast.Constant) \
-            and node.keywords[0].value.value is True:
-        kw = node.keywords[0].arg
-        if kw == "above_fermi":
-            return "(AFresh Virt)"
-        if kw == "below_fermi":
-            return "(AFresh Occ)"
+    if isinstance(node, ast.Name) and node.id in local:
+        return local[node.id]
     _fail(node, "unsupported KroneckerDelta argument")
 
 
-def _deltas(node):
+def _deltas(node, local):
     if isinstance(node, ast.BinOp) and isinstance(node.op, ast.Mult):
-        return _deltas(node.left) + _deltas(node.right)
+        return _deltas(node.left, local) + _deltas(node.right, local)
     if isinstance(node, ast.Call) and _is_name(node.func, "KroneckerDelta") \
             and len(node.args) == 2 and not node.keywords:
-        return [f"({_darg(node.args[0])}, {_darg(node.args[1])})"]
+        return [f"({_darg(node.args[0], local)}, "
+                f"{_darg(node.args[1], local)})"]
     _fail(node, "unsupported return value")
 
 
-def _ret(node):
+def _ret(node, local):
     if isinstance(node, ast.Attribute) and _is_name(node.value, "S") \
             and node.attr == "Zero":
         return "None"
-    return "(Some [" + "; ".join(_deltas(node)) + "])"
+    return "(Some [" + "; ".join(_deltas(node, local)) + "])"
 
 
 def _stmts(stmts):
-    if len(stmts) != 1:
-        _fail(stmts[0] if stmts else ast.Pass(),
-              "expected exactly one statement in a branch")
-    st = stmts[0]
+    if not stmts:
+        _fail(ast.Pass(), "empty branch")
+    # leaf: bindings of new indices followed by a return
+    local = {}
+    k = 0
+    while k < len(stmts) - 1:
+        b = _fresh_binding(stmts[k])
+        if b is None:
+            break
+        if b[0] in local:
+            _fail(stmts[k], "name bound twice")
+        local[b[0]] = b[1]
+        k += 1
+    if k != len(stmts) - 1:
+        _fail(stmts[k], "unsupported statement in a branch")
+    st = stmts[-1]
     if isinstance(st, ast.Return) and st.value is not None:
-        return _ret(st.value)
+        return _ret(st.value, local)
+    if local:
+        _fail(st, "bindings must be followed by a return")
     if isinstance(st, ast.If):
         if not st.orelse:
             _fail(st, "if without else (fall-through) is not supported")
